@@ -26,7 +26,7 @@ def lexH : Handler := fun args => do
   | some ts => .ok (listReply (ts.map tokBytes))
   | none =>
     match lexDiag (cs.length + 1) {} true cs 0 with
-    | .error (n, rest) => .error s!"not lexable after {n} tokens at: {String.ofList (rest.take 40)}"
+    | .error (n, rest) => .error s!"not lexable after {n} tokens at: {String.ofList ((rest.take 40).map (fun c => if c.toNat < 32 || 126 < c.toNat then '.' else c))}"
     | .ok _ => .error "not lexable"
 
 def kindOfByte (b : UInt8) : Option Verif.Model.C09JsWriter.XKind :=
